@@ -2,7 +2,7 @@
    nothing it transmits is longer than the bearer's ATT_MTU; at most one indication per
    bearer awaits its confirmation.
    Statements only; every theorem is closed by [exact] of a lemma of Proofs/AttServer.v.
-   The model (Model/AttServer.v) is of the code after fixes/D10a..D10d.patch. *)
+   The model (Model/AttServer.v) is of the code after fixes/D10a..D10e.patch. *)
 From Coq Require Import ZArith List Bool.
 From BV Require Import Gen.C10Tables Model.AttServer Proofs.AttServer.
 Import ListNotations.
@@ -11,16 +11,20 @@ Open Scope Z_scope.
 (* The tables the model is written against are those of the current source: ATT_REQUESTS is
    the specification's request set; Server has exactly the handlers the model dispatches to,
    sync / task-wrapped as modelled; every awaited read_value / write_value in a task-wrapped
-   handler is guarded by a try that catches ATT_Error; malformed and handler-less requests
-   are answered; PDU field layouts, opcodes, permission bits, error codes and size constants
+   handler is guarded by a try that catches ATT_Error, and every task-wrapped request handler
+   is wrapped by the decorator that answers any other escaping exception with UNLIKELY_ERROR
+   (D10e); malformed and handler-less requests are answered; PDU field layouts, opcodes, permission bits, error codes and size constants
    are the modelled ones.  Re-checked against the regenerated Gen/C10Tables.v on every run. *)
 Theorem C10_tables_match_source : tables_match = true.
 Proof. vm_compute. reflexivity. Qed.
 Print Assumptions C10_tables_match_source.
 
 (* request_one_reply: for every server state (any database, any bearer, any subscription and
-   indication state), every request opcode and every parameter bytes -- well-formed or not,
-   valid handles or not -- the server sends exactly one PDU: the matching response
+   indication state; [st] includes, per attribute, what its value object does on read and on
+   write: returns / stores bytes, raises ATT_Error with any code, raises any other exception
+   or has no such function, or is a server-made CCCD), every request opcode and every
+   parameter bytes -- well-formed or not, valid handles or not -- the server sends exactly
+   one PDU: the matching response
    (opcode + 1) or an Error Response naming that request. *)
 Theorem C10_request_one_reply : forall st opc ps,
   In opc spec_requests ->
@@ -124,12 +128,24 @@ Print Assumptions C10_model_total.
    Multiple Variable at ATT_MTU 23 give a 23-byte response whose last value is truncated;
    D10a's witness -- a protected attribute inside a Read Multiple -- gives an Error Response. *)
 Example C10_nonvacuous :
-  let db := [mkAttr 1 [0; 40] 1 [170; 170] 5 0 0;
-             mkAttr 2 [3; 40] 1 [10; 3; 0; 17; 17] 3 0 0; mkAttr 3 [17; 17] 1 (mkb 10 65 1) 3 0 0;
-             mkAttr 4 [3; 40] 1 [10; 5; 0; 34; 34] 5 0 0; mkAttr 5 [34; 34] 5 (mkb 10 97 1) 5 0 0] in
+  let db := [mkAttr 1 [0; 40] 1 [170; 170] 5 0 0 0;
+             mkAttr 2 [3; 40] 1 [10; 3; 0; 17; 17] 3 0 0 0; mkAttr 3 [17; 17] 1 (mkb 10 65 1) 3 0 0 0;
+             mkAttr 4 [3; 40] 1 [10; 5; 0; 34; 34] 5 0 0 0; mkAttr 5 [34; 34] 5 (mkb 10 97 1) 5 0 0 0] in
   let st := init db (mkBearer 23 false false false) 517 in
   option_map (fun r => map (@length Z) (snd r)) (rx st 32 [3; 0; 3; 0; 3; 0]) = Some [23%nat] /\
   option_map snd (rx st 14 [3; 0; 5; 0]) = Some [[1; 14; 5; 0; 15]] /\
   option_map snd (rx st 10 [1]) = Some [[1; 10; 0; 0; 4]] /\
+  (* D10e: a value whose read function raises (or is missing) / whose write function raises *)
+  (let st' := init [mkAttr 1 [17; 17] 3 [] 1 (-1) (-1) 0; mkAttr 2 [2; 41] 3 [] 2 0 0 1]
+                   (mkBearer 23 false false false) 517 in
+   option_map snd (rx st' 10 [1; 0]) = Some [[1; 10; 0; 0; 14]] /\
+   option_map snd (rx st' 32 [1; 0]) = Some [[1; 32; 0; 0; 14]] /\
+   option_map snd (rx st' 6 [1; 0; 255; 255; 17; 17; 9]) = Some [[1; 6; 0; 0; 14]] /\
+   option_map snd (rx st' 18 [1; 0; 5]) = Some [[1; 18; 0; 0; 14]] /\
+   option_map snd (rx st' 82 [1; 0; 5]) = Some [] /\
+   (* a CCCD accepts a write of any length <= 512 and stores only 2-byte values *)
+   option_map snd (rx st' 18 [2; 0; 1]) = Some [[19]] /\
+   option_map snd (run st' [Rx 18 [2; 0; 1; 0]; Rx 10 [2; 0]; Rx 18 [2; 0; 7]; Rx 10 [2; 0]]) =
+     Some [(23, [[19]]); (23, [[11; 1; 0]]); (23, [[19]]); (23, [[11; 1; 0]])]) /\
   mtu_kept st [Indicate 3 None true; Rx 2 [100; 0]; Rx 30 []] = true.
 Proof. vm_compute. repeat split. Qed.
